@@ -40,7 +40,9 @@ class Call(Expression):
         out += (STATUS, RESULT, POS) << Yield((CALL, func, POS))
 
 
-class KeywordArg:
+class KeywordArg(Expression):
+    # An Expression, so that tree visitors (ids, references, ignore flags) reach
+    # the value of a keyword argument.
     def __init__(self, name, expr):
         self.name = name
         self.expr = expr
